@@ -141,6 +141,10 @@ for _k in ('C01', 'C02', 'C03', 'C04', 'C05', 'C07', 'C08', 'C10', 'C11', 'C13',
 for _k in ('C01', 'C02', 'C03', 'C04', 'C05', 'C07', 'C08', 'C10', 'C11', 'C13', 'C14', 'C15'):
     PROPS[_k]['tie_defs'] = PROPS[_k].get('tie_defs', []) + [r'^TC\.']
     PROPS[_k]['extra_modules'] = PROPS[_k].get('extra_modules', []) + ['Daac.Props.TieTopC']
+# the `build` entry points (position conversion; generated T[BC].Builder.build, T[BC].enumTryCollect): C06 / C10
+for _k in ('C06', 'C10'):
+    PROPS[_k]['tie_defs'] = PROPS[_k].get('tie_defs', []) + [r'^T[BC]\.(Builder\.build$|enumTryCollect$)']
+    PROPS[_k]['extra_modules'] = PROPS[_k].get('extra_modules', []) + ['Daac.Props.TieTopBuild']
 for _k, (_s, _r) in _NOTES.items():
     PROPS[_k]['statement'] = _s
     PROPS[_k]['residue'] = _r
